@@ -39,10 +39,13 @@ def exec_yield(E, node, st, fr):
     # 1. yield invariant + step postcondition
     sfr = Frame(fr.qname, fr.module, fr.cls, c, fr.fn, old=old_resume, spec=True, entry_locals=fr.entry_locals,
                 loop_entry=fr.loop_entry)
+    from .spec import split_tags
     for i, inv in enumerate(g.get("yield_inv", {}).get(k, [])):
-        E.oblige(fr, st, "yield-inv", f"y{k}:{i}", E.sev_bool(inv, st, sfr), info=inv)
+        tags, body = split_tags(inv)
+        E.oblige(fr, st, "yield-inv", f"y{k}:{i}", E.sev_bool(inv, st, sfr), info=body, tags=tags)
     for i, (label, post) in enumerate(g.get("step_post", [])):
-        E.oblige(fr, st, "yield-step", f"y{k}:{label}", E.sev_bool(post, st, sfr), info=post)
+        tags, body = split_tags(post)
+        E.oblige(fr, st, "yield-step", f"y{k}:{label}", E.sev_bool(post, st, sfr), info=body, tags=tags)
     # 2. environment
     at_yield = st.snapshot()
     yfr = Frame(fr.qname, fr.module, fr.cls, c, fr.fn, old=at_yield, spec=True, entry_locals=fr.entry_locals,
@@ -73,8 +76,10 @@ def verify_generator(E, q, c, fn, fr, st, old):
     for o in outs:
         if o.kind in ("ok", "ret"):
             sfr = Frame(fr.qname, fr.module, fr.cls, c, fr.fn, old=o.st.resume, spec=True, entry_locals=fr.entry_locals)
+            from .spec import split_tags
             for i, (label, post) in enumerate(g.get("exhaust", [])):
-                E.oblige(fr, o.st, "exhaust", label, E.sev_bool(post, o.st, sfr), info=post)
+                tags, body = split_tags(post)
+                E.oblige(fr, o.st, "exhaust", label, E.sev_bool(post, o.st, sfr), info=body, tags=tags)
         elif o.kind == "raise":
             if o.exc in c.raises:
                 sfr = Frame(fr.qname, fr.module, fr.cls, c, fr.fn, old=o.st.resume, spec=True, entry_locals=fr.entry_locals)
